@@ -229,6 +229,16 @@ def binop(it, op, a, b, node=None):
     if isinstance(b, Obj) and isinstance(op, ast.Div) and isinstance(a, str):
         b.fields['$name'] = a
         return b
+    if isinstance(a, (Instant, Duration)) or isinstance(b, (Instant, Duration)):
+        if isinstance(op, ast.Add) and isinstance(a, Instant) and isinstance(b, Duration):
+            return Instant(z3.simplify(a.us + b.us), a.tz)
+        if isinstance(op, ast.Add) and isinstance(a, Duration) and isinstance(b, Instant):
+            return Instant(z3.simplify(a.us + b.us), b.tz)
+        if isinstance(op, ast.Sub) and isinstance(a, Instant) and isinstance(b, Duration):
+            return Instant(z3.simplify(a.us - b.us), a.tz)
+        if isinstance(op, (ast.Add, ast.Sub)) and isinstance(a, Duration) and isinstance(b, Duration):
+            return Duration(z3.simplify(a.us + b.us if isinstance(op, ast.Add) else a.us - b.us))
+        raise Unsupported('datetime arithmetic %s' % type(op).__name__)
     if isinstance(a, OpaqueFloat) or isinstance(b, OpaqueFloat) or isinstance(a, float) or isinstance(b, float):
         if isinstance(a, (int, float)) and isinstance(b, (int, float)):
             return _py_binop(op, a, b, node)
@@ -625,6 +635,22 @@ class OpaqueVal:
 
     def __repr__(self):
         return 'OpaqueVal(%s)' % self.kind
+
+
+class Instant(OpaqueVal):
+    """exact UTC instant: microseconds since the epoch as a z3 Int (datetime.fromtimestamp(int, tz) and
+    datetime +/- timedelta are exact integer arithmetic in CPython)"""
+
+    def __init__(self, us, tz):
+        OpaqueVal.__init__(self, 'datetime', ('instant', tz))
+        self.us = us
+        self.tz = tz
+
+
+class Duration(OpaqueVal):
+    def __init__(self, us):
+        OpaqueVal.__init__(self, 'timedelta', ())
+        self.us = us
 
 
 def to_repr(it, v, node=None):
